@@ -85,7 +85,9 @@ def gen_cases(rng, tier):
                     for wrong in picks:
                         cases.append({"tool": tool, "launcher": la, "scenario": "wrongext", "variant": [rng.choice(["-c", "-t", "-x", "-r"]), wrong]})
                 for into in (False, True):
-                    cases.append({"tool": tool, "launcher": la, "scenario": "extract", "into": into, "verbose": rng.random() < 0.5, "sub": rng.choice(["", "arc/", "a.b/"])})
+                    # the archive in the current directory and in another one: where the outputs go depends on both
+                    for sub in ("", rng.choice(["arc/", "a.b/"])):
+                        cases.append({"tool": tool, "launcher": la, "scenario": "extract", "into": into, "verbose": rng.random() < 0.5, "sub": sub})
                     cases.append({"tool": tool, "launcher": la, "scenario": "create", "into": into, "verbose": rng.random() < 0.5, "sub": rng.choice(["arc/", "a.b/"])})
                     if tool != "moto_tar":
                         cases.append({"tool": tool, "launcher": la, "scenario": "add", "into": into, "verbose": False, "sub": rng.choice(["", "arc/"])})
